@@ -140,6 +140,7 @@ func genC14(c *Ctx) {
 	}
 	c14Fragment(c, n)
 	c14CutStreams(c)
+	c14V3Arrivals(c, n)
 	c14Arrivals(c, n)
 	c14Special(c)
 }
@@ -516,6 +517,116 @@ func c14CutStreams(c *Ctx) {
 				c.AddCase(65, "Receive(v2 fragment sequence)", VL(outs), VL(ms))
 				c.Count("arrival:cut-stream")
 			}
+		}
+	}
+}
+
+// arrival sequences for a version 3 conversation (own tag 0x205): the 23-byte prefix with its tags in front of the same
+// index / total / payload grammar; what Receive returns and the peer instance the conversation is bound to after each
+// call, compared with Bytes/FragV3.v (fn 66)
+func c14V3Arrivals(c *Ctx, n int) {
+	const our = 0x205
+	for s := 0; s < n; s++ {
+		conv := newPlainConv(3, our)
+		var msgs [][]byte
+		var outs []Val
+		var trace []string
+		steps := 3 + c.R.Intn(12)
+		k, tot := 0, 2+c.R.Intn(3)
+		peer := uint32(0x301)
+		bad := false
+		for i := 0; i < steps; i++ {
+			st, rt := peer, uint32(our)
+			if c.R.Intn(3) == 0 {
+				rt = 0
+			}
+			kk, tt := 0, 0
+			kind := ""
+			piece := c.genPayload(1 + c.R.Intn(4))
+			var m []byte
+			switch x := c.R.Intn(16); {
+			case x < 6:
+				k++
+				if k > tot {
+					k, tot = 1, 2+c.R.Intn(3)
+				}
+				kind, kk, tt = "next", k, tot
+			case x == 6:
+				k, tot = 1, 1+c.R.Intn(3)
+				kind, kk, tt = "restart", k, tot
+			case x == 7:
+				kind, kk, tt = "wrong-total", k+1, tot+1
+				k = 0
+			case x == 8:
+				kind, kk, tt = "duplicate", k, tot
+			case x == 9:
+				kind, kk, tt = "illegal-index", []int{0, tot + 1, 65536, 70000}[c.R.Intn(4)], tot
+			case x == 10:
+				kind, kk, tt = "foreign-receiver", k+1, tot
+				rt = 0x777
+			case x == 11:
+				kind, kk, tt = "other-sender", k+1, tot
+				st = 0x302
+			case x == 12:
+				kind, kk, tt = "reserved-sender", k+1, tot
+				st = uint32(c.R.Intn(0x100))
+			case x == 13:
+				kind, kk, tt = "reserved-receiver", k+1, tot
+				rt = uint32(1 + c.R.Intn(0xff))
+			case x == 14:
+				kind = "short-prefix"
+				m = []byte(fmt.Sprintf("?OTR|%08x|%07x", st, rt))
+			default:
+				kind = "bad-tag-digits"
+				m = []byte(fmt.Sprintf("?OTR|%08x|zz%06x,%05d,%05d,%s,", st, rt, k+1, tot, piece))
+			}
+			if m == nil {
+				m = []byte(fmt.Sprintf("?OTR|%08x|%08x,%05d,%05d,%s,", st, rt, kk, tt, piece))
+			}
+			c.Count("arrival-v3:" + kind)
+			trace = append(trace, kind+":"+string(m))
+			msgs = append(msgs, m)
+			o := guard(func() Val {
+				p, _, _ := conv.Receive(m)
+				their := N(int(otr3.VerifSnapshot(conv).TheirTag))
+				if p == nil {
+					return L(VNone{}, their)
+				}
+				return L(B(p), their)
+			})
+			outs = append(outs, o)
+			if _, isPanic := o.(VPanic); isPanic {
+				c.Violate("panic", "Receive(v3 fragment)", "panic while receiving a fragment", trace)
+				bad = true
+				break
+			}
+		}
+		if bad {
+			continue
+		}
+		ms := make([]Val, len(msgs))
+		for i, m := range msgs {
+			ms[i] = B(m)
+		}
+		c.AddCase(66, "Receive(v3 fragment sequence)", VL(outs), N(our), VL(ms))
+	}
+	// in order, the pieces the library cuts give the message back (tags: ours as receiver or none)
+	for _, rt := range []uint32{our, 0} {
+		for _, size := range []int{40, 41, 57, 100} {
+			conv := newPlainConv(3, our)
+			data := c.genPayload(30 + c.R.Intn(200))
+			pieces := otr3.VerifFragment(3, 0x301, rt, data, uint16(size))
+			var got []byte
+			for _, p := range pieces {
+				pl, _, _ := conv.Receive(p)
+				if pl != nil {
+					got = append(got, pl...)
+				}
+			}
+			if len(pieces) > 1 && !bytes.Equal(got, data) {
+				c.Violate("delivery-differs-from-reference", "v3-in-order", fmt.Sprintf("%d pieces of size %d delivered in order gave %q for %q", len(pieces), size, got, data), nil)
+			}
+			c.Count("v3-in-order")
 		}
 	}
 }
